@@ -9,6 +9,7 @@ RULE = ('histories of 1-3 sessions x 4-14 operations: queries built to share cod
         'varying parameter values and types (getattr names, string slice / index bounds, tuples of different lengths, '
         'int / float / str / None / bool parameters), hybrid methods / properties / functions whose globals and closure '
         'cells change value and type between executions, lambdas, string-source queries, filter / where / keyword chains, '
+        'queries with a baked-in parameter value reshaped by order_by / order_by(None) / filter / where / distinct / without_distinct, '
         'aggregates, first / exists / page / get, prefetch, raw_sql fragments, raw db.select / exists / execute with '
         '$name, $(expr), $$ and %, select_by_sql / get_by_sql, adapt_sql under all five parameter styles - interleaved '
         'with ORM modifications, flush, commit, rollback and session boundaries; each history runs three times on '
@@ -23,7 +24,7 @@ COMPONENTS = {
     'stub': ['cache-loss injector (clears Pony\'s cache dictionaries from outside)', 'DB-API proxy'],
 }
 
-W = [('q_eq', 5), ('q_cmp', 4), ('q_in', 3), ('q_slice', 4), ('q_index', 3), ('q_getattr', 3), ('q_lambda', 3), ('q_str', 3),
+W = [('q_eq', 5), ('q_cmp', 4), ('q_in', 3), ('q_slice', 4), ('q_index', 3), ('q_getattr', 3), ('q_shape', 6), ('q_lambda', 3), ('q_str', 3),
      ('q_chain', 3), ('q_aggr', 3), ('q_limit', 3), ('q_get', 2), ('q_kw', 2), ('q_items', 2), ('q_join', 2), ('q_m2m', 2),
      ('q_prefetch', 2), ('q_rawfrag', 2), ('q_hybrid', 5), ('raw', 4), ('by_sql', 2), ('adapt', 4),
      ('m_set', 3), ('m_new', 2), ('m_del', 1), ('m_tag', 2), ('m_rawwrite', 2), ('m_bulkdel', 2), ('q_oneoff', 4), ('flush', 1), ('commit', 1), ('rollback', 1)]
